@@ -21,7 +21,10 @@ RULE = ("valid map requests of harness/mapgen.py (DAGs of 1..4 structural functi
         "reductions / internal axes at any position / mapped functions without any mapped axis / generators / unmapped "
         "functions / tuple outputs, every storage) whose root inputs are 1-D or 2-D with distinct values; user-level lists "
         "whose generator MapSpecs are left to pipefunc (auto-generated, functions handed over in a random order); two "
-        "independent sub-pipelines sharing index names; unmapped functions returning ndarrays; hand-written corner cases; "
+        "independent sub-pipelines sharing index names; unmapped functions returning ndarrays; a partially reduced "
+        "intermediate whose reduced axis name is re-used by a sibling input (equal and unequal lengths, on every seed); "
+        "hand-written corner cases; 'rerun' cases: the observed run is the SECOND run into a folder that already holds a "
+        "run of the same pipeline with same-shaped other inputs, a dataset having been loaded in between (same process); "
         "each with load_intermediate on or off; both xarray_dataset_from_results and load_xarray_dataset are built from a "
         "real run folder; kind 0 compares variables, dims, values, coordinates, identical(), and .sel() on every "
         "single-source 1-D coordinate value; kind 1 is .sel() on zipped coordinates; every observation also carries "
@@ -101,7 +104,8 @@ def _run_request(c):
     from pipefunc.map import load_xarray_dataset
     from pipefunc.map.xarray import xarray_dataset_from_results
 
-    key = json.dumps({k: c.get(k) for k in ("funcs", "inputs", "internal", "storage", "li", "order")}, sort_keys=True)
+    key = json.dumps({k: c.get(k) for k in ("funcs", "inputs", "internal", "storage", "li", "order", "rerun")},
+                     sort_keys=True)
     if key in _cache:
         return _cache[key]
     _cache.clear()
@@ -115,6 +119,11 @@ def _run_request(c):
             else:
                 p = mapsym.build_pipeline(c, log)
             with mapsym.TempRun() as d:
+                if c.get("rerun"):
+                    # an EARLIER run of the same pipeline into the same folder, in this process, with inputs of the
+                    # same shapes but other values, and a dataset loaded from the folder in between: the datasets
+                    # observed below must be those of the LATER run (nothing of the earlier one may survive in a cache)
+                    _earlier_run(c, p, d)
                 inputs = mapsym.map_inputs(c)
                 r = p.map(inputs, run_folder=d, internal_shapes=mapsym.internal_arg(c),
                           storage=c.get("storage", "dict"), parallel=False)
@@ -135,6 +144,33 @@ def _run_request(c):
             out = {0: Err(e), 1: Err(e)}
     _cache[key] = out
     return out
+
+
+def _other_values(c):
+    """The inputs of the request with the same names and shapes but different values."""
+    out = []
+    for k, v in c["inputs"]:
+        if isinstance(v, dict):
+            out.append([k, dict(v, d=["p" + x for x in v["d"]])])
+        else:
+            out.append([k, "p" + v])
+    return out
+
+
+def _earlier_run(c, p, d):
+    from pipefunc.map import load_outputs, load_xarray_dataset
+
+    inputs0 = mapsym.map_inputs(dict(c, inputs=_other_values(c)))
+    p.map(inputs0, run_folder=d, internal_shapes=mapsym.internal_arg(c), storage=c.get("storage", "dict"),
+          parallel=False)
+    for li in (True, False):
+        try:
+            load_xarray_dataset(run_folder=d, load_intermediate=li)
+        except Exception:  # noqa: BLE001  (a request in a known-finding region has no dataset)
+            pass
+    outs = [o for f in c["funcs"] for o in f["outs"]]
+    if outs:
+        load_outputs(outs[-1], run_folder=d)
 
 
 def run_impl(c):
@@ -355,25 +391,97 @@ def _axis_conflict(c):
     return any(len(v) > 1 for v in sizes.values())
 
 
+def _reduced_name_reused(c):
+    """Some function takes an axis of a computed array with ':' while a sibling input names an axis like the producer does."""
+    produced = {}
+    for f in c["funcs"]:
+        sp = f.get("spec")
+        if sp:
+            for o, ax in sp["o"]:
+                produced[o] = (ax, bool(sp["i"]))
+    for f in c["funcs"]:
+        sp = f.get("spec")
+        if not sp:
+            continue
+        for a, ax in sp["i"]:
+            if a in produced and produced[a][1]:
+                hidden = {produced[a][0][k] for k, nm in enumerate(ax) if nm is None and k < len(produced[a][0])}
+                named = {nm for b, bx in sp["i"] if b != a for nm in bx if nm}
+                if hidden & named:
+                    return True
+    return False
+
+
 def _plain_rank(c):
     return max([len(fd.get("ret") or []) for fd in c["funcs"] if fd.get("spec") is None] + [0])
 
 
-def _cases_of(req, li):
+def _cases_of(req, li, rerun=False):
     base = dict(req)
     base["li"] = bool(li)
+    if rerun:
+        base["rerun"] = True
     out = [dict(base, kind=0)]
     if _may_zip(req):
         out.append(dict(base, kind=1))
     return out
 
 
+def _reduced_sibling(rng, equal=None, swap=None):
+    """A partially reduced INTERMEDIATE whose reduced axis name is re-used by a sibling input of the same function:
+         a[i], b[j] -> x[i, j] ;  x[i, :], c[j] -> z[i, j]
+    z depends on c (not on b) along j.  len(c) == len(b) (only the labels can tell the difference) or != (the index
+    name j then has two sizes: the known finding, but never a MultiIndex of arrays of different lengths)."""
+    ni, nj = rng.randint(1, 3), rng.randint(2, 3)
+    if equal is None:
+        equal = rng.random() < 0.65
+    nc = nj if equal else rng.choice([n for n in (1, 2, 3, 4) if n != nj])
+    if swap is None:
+        swap = rng.random() < 0.4
+    red, keep, nkeep = ("i", "j", nj) if swap else ("j", "i", ni)   # the axis of x that g reduces / keeps
+    nred_in = ni if swap else nj
+    if swap:   # x[:, j], c[i] -> z : reduce i, c re-uses the name i
+        sizes_ab = (ni, nj)
+        x_in = [None, "j"]
+    else:
+        sizes_ab = (ni, nj)
+        x_in = ["i", None]
+    del nkeep, nred_in
+    funcs = [_fn("f", ["x"], [["a", ["i"]], ["b", ["j"]]], ["i", "j"])]
+    g_ins = [["x", x_in], ["c", [red]]]
+    inputs = [_arr("a", [sizes_ab[0]], rng.choice(["list", "nd"])), _arr("b", [sizes_ab[1]], rng.choice(["list", "nd"])),
+              _arr("c", [nc], rng.choice(["list", "nd"]))]
+    if rng.random() < 0.3:     # a second sibling zipped with c
+        g_ins.append(["d", [red]])
+        inputs.append(_arr("d", [nc], "list"))
+    rng.shuffle(g_ins)
+    oax = [keep, red]
+    if rng.random() < 0.4:
+        oax.reverse()
+    outs = ["z"] if rng.random() < 0.7 else ["z", "z2"]
+    funcs.append(_fn("g", outs, g_ins, oax))
+    u = rng.random()
+    if u < 0.3:
+        funcs.append(_fn("h", ["w"], [["z", list(oax)]], list(oax)))
+    elif u < 0.5:
+        funcs.append(_fn("h", ["w"], [["z", [a if a == red else None for a in oax]]], [red]))
+    return {"funcs": funcs, "inputs": inputs, "internal": [],
+            "storage": rng.choice(["dict", "dict", "file_array", "shared_memory_dict"])}
+
+
 def generate(rng, tier, mult):
+    import random as _random
+
     n = (85 if tier == "quick" else 2200) * mult
     out = []
-    for r in corner_requests():
+    for q, r in enumerate(corner_requests()):
         for li in (True, False):
             out += _cases_of(r, li)
+        if q % 3 == 0:     # ... and as the second run into a folder that already holds another run
+            out += _cases_of(r, q % 2 == 0, rerun=True)
+    fixed = _random.Random(190)   # the same members of the family on every seed
+    for equal, swap in ((True, False), (False, False), (True, True)):
+        out += _cases_of(_reduced_sibling(fixed, equal, swap), equal)
     storages = ("dict", "dict", "dict", "file_array", "file_array", "shared_memory_dict")
     k = 0
     while k < n:
@@ -395,7 +503,9 @@ def generate(rng, tier, mult):
                     if a["order"] == sorted(a["order"]) and rng.random() < 0.5:
                         rng.shuffle(a["order"])
                     c = a
-        out += _cases_of(c, rng.random() < 0.5)
+        if rng.random() < 0.07:
+            c = _reduced_sibling(rng)
+        out += _cases_of(c, rng.random() < 0.5, rerun=rng.random() < 0.2)
         k += 1
     return out
 
@@ -409,7 +519,8 @@ def nontrivial_key(c):
     if not _has_coord(c):
         return None
     return ([mapsym.spec_str(f.get("spec")) for f in c["funcs"]],
-            [v["sh"] if isinstance(v, dict) else 0 for _, v in c["inputs"]], c["li"], c["kind"], c.get("order") or [])
+            [v["sh"] if isinstance(v, dict) else 0 for _, v in c["inputs"]], c["li"], c["kind"], c.get("order") or [],
+            bool(c.get("rerun")))
 
 
 def distribution(c):
@@ -420,7 +531,8 @@ def distribution(c):
             "storage": c.get("storage"), "input_ranks": "".join(map(str, ranks)), "may_zip": _may_zip(c),
             "colon": any(a is None for f in c["funcs"] if f.get("spec") for _, ax in f["spec"]["i"] for a in ax),
             "axis_conflict": _axis_conflict(c), "plain_rank": _plain_rank(c),
-            "autogen": bool(c.get("order")),
+            "autogen": bool(c.get("order")), "rerun": bool(c.get("rerun")),
+            "reduced_axis_name_reused": _reduced_name_reused(c),
             "zero_mapped_axes": any(f.get("spec") and f["spec"]["i"]
                                     and not any(a for _, ax in f["spec"]["i"] for a in ax) for f in c["funcs"]),
             "internal_before_mapped": any(
